@@ -30,18 +30,18 @@ def mk(cap, op, config=(), tag="", timeout=600):
 
 def cases(tier):
     cs = []
-    caps = (1, 2, 3) if tier == "quick" else (1, 2, 3, 4)
+    caps = (1, 2, 3, 4)  # the step harness is cheap enough for every capacity in both tiers
     for cap in caps:
         for op in sorted(OPS):
             cs.append(mk(cap, op))
-    for cap in ((2,) if tier == "quick" else (1, 2, 3, 4)):
+    for cap in (1, 2, 3, 4):
         for op in sorted(OPS):
             cs.append(mk(cap, op, ["-DUSE_DEVICE_DEPENDENT_ERROR_INFORMATION=0"], "-noinfo"))
     return cs
 
 
 META = dict(
-    bounds=dict(capacities="1..3 quick, 1..4 thorough", step="one operation from an arbitrary representation state "
+    bounds=dict(capacities="1..4 (both tiers, malloc and no-info configurations)", step="one operation from an arbitrary representation state "
                 "(refinement step; histories of any length follow by induction)", text_len="0..3"),
     outside=["texts longer than 3 characters (copy loops are length-generic; long texts through the 255 limit are exercised "
              "under C18)", "capacities above 4", "the static-heap configuration (C20)"],
